@@ -382,6 +382,9 @@ func (p *Parser) parseBuffer(buf []byte, last bool) (err error) {
 					p.addToken(off)
 				}
 			}
+			if _, ok := p.stack[len(p.stack)-1].(gen.Key); ok {
+				return p.newError(off, "expected a value")
+			}
 			p.starts = p.starts[0:depth]
 			n := p.stack[len(p.stack)-1]
 			p.stack = p.stack[:len(p.stack)-1]
